@@ -22,7 +22,11 @@ def run(case, lang, seed, max_leaves, k):
     q = case["id"]
     T = hlib.Table(case["ct"], case["order"], lang)
     case["ct"].update(hlib.real_builtin_entries(T.factory, case["ct"]))
-    tps = list(T.decl["G"].type_parameters)
+    opt = q.get("opt") or {"isfun": False, "pecs": True, "dvf": False, "dv": False}
+    tcon = T.factory.get_function_type(2) if q["sh"]["d"] == "F2" else T.decl["G"].get_type()
+    tps = list(tcon.type_parameters)
+    if q["sh"]["d"] == "F2":      # the declared variance of the built-in function type is the language's (an input)
+        case["tps"] = [{"n": p.name, "v": hlib.VNAME[p.variance.value], "b": []} for p in tps]
     byname = {p.name: p for p in tps}
     oracle = hlib.ChoiceOracle(seed, max_leaves)
     saved, saved_dis = utils.random, (cfg.dis.use_site_variance, cfg.dis.use_site_contravariance)
@@ -40,7 +44,8 @@ def run(case, lang, seed, max_leaves, k):
             if q["fn"]:
                 m = tu.instantiate_parameterized_function(tps, types, type_var_map=pre or None)
                 return [m[p] for p in tps], m
-            pt, m = tu.instantiate_type_constructor(T.decl["G"].get_type(), types, type_var_map=pre or None, variance_choices=choices)
+            pt, m = tu.instantiate_type_constructor(tcon, types, type_var_map=pre or None, variance_choices=choices,
+                                                    enable_pecs=opt["pecs"], disable_variance_functions=opt["dvf"], disable_variance=opt["dv"])
             return pt.type_args, m
         for _, out in oracle.run_all(call):
             leaves += 1
@@ -53,7 +58,7 @@ def run(case, lang, seed, max_leaves, k):
     finally:
         utils.random = saved
         cfg.dis.use_site_variance, cfg.dis.use_site_contravariance = saved_dis
-    ev = {"kind": "instantiate", "tps": case["tps"], "pre": pre_terms, "choices": {"on": ch["on"], "m": chm}, "sw": q["sw"], "fn": q["fn"],
+    ev = {"kind": "instantiate", "tps": case["tps"], "pre": pre_terms, "choices": {"on": ch["on"], "m": chm}, "sw": q["sw"], "fn": q["fn"], "opt": opt,
           "outs": list(outs.values()), "res": [], "exc": sorted(set(excs))[:3], "leaves": leaves,
           "argdesc": "%s%s pre=%s" % ("fn " if q["fn"] else "", json.dumps(q["sh"]), json.dumps(pre_terms))}
     return {"id": "c%d/%s" % (k, lang), "lang": lang, "ct": case["ct"], "events": [ev]}
